@@ -97,6 +97,7 @@ impl J {
         s
     }
 
+    #[allow(dead_code)]
     pub fn compact(&self) -> String {
         let mut s = String::new();
         self.write(&mut s, 0, false);
